@@ -486,11 +486,7 @@ def _scool(R, unit, only):
                         cs[ci] = cs[ci] + [what[1] if what[1] is not None else cs[ci][0]]
                         return iter([px(c) for c in cs])
                     raised, _, _ = run({nm: chunks(nm) for nm in names})
-                    recog = judge(inner, raised, True, bad_cell=bad)
-                    # cells that sort before the disturbed one were finished before it was started
-                    lost = [nm for nm in names[:bi] if nm not in recog]
-                    if lost:
-                        R.mismatch("finished-cell-lost-by-a-later-failure", inner, f"{lost}")
+                    judge(inner, raised, True, bad_cell=bad)      # (in which order the cells are written is the implementation's business)
     scratch.rm(wd)
 
 
